@@ -126,8 +126,25 @@ const C52: u64 = 0x4330_0000_0000_0000;
 // Special cases:
 // NaN -> uint::MAX
 // inf -> uint::MAX
-// -inf -> 0
+// -inf and any other negative value -> 0
 // Greater than 2^23 for f64, 2^52 for f64 -> uint::MAX
+//
+// The scaled value is clamped to [0, max] before the magic number is added,
+// since the trick is only valid for non-negative values below 2^23 or 2^52.
+// Scaled values of 2^52 or more, which only u64 and u128 can reach, are already
+// integers and are converted with a saturating cast instead.
+macro_rules! double_to_uint {
+    ($scaled: expr, $target: ident) => {{
+        let scaled: f64 = $scaled;
+        if scaled < f64::from_bits(C52) {
+            let f = scaled + f64::from_bits(C52);
+            (f.to_bits().saturating_sub(C52)) as $target
+        } else {
+            scaled as $target
+        }
+    }};
+}
+
 macro_rules! convert_float_to_uint {
     ($float: ident; direct ($($direct_target: ident),+); $(via $temporary: ident ($($target: ident),+);)*) => {
         $(
@@ -135,7 +152,7 @@ macro_rules! convert_float_to_uint {
                 #[inline]
                 fn into_stimulus(self) -> $direct_target {
                     let max = $direct_target::max_intensity() as $float;
-                    let scaled = (self * max).min(max);
+                    let scaled = (self * max).min(max).max(0.0);
                     let f = scaled + f32::from_bits(C23);
                     (f.to_bits().saturating_sub(C23)) as $direct_target
                 }
@@ -148,9 +165,8 @@ macro_rules! convert_float_to_uint {
                     #[inline]
                     fn into_stimulus(self) -> $target {
                         let max = $target::max_intensity() as $temporary;
-                        let scaled = (self as $temporary * max).min(max);
-                        let f = scaled + f64::from_bits(C52);
-                        (f.to_bits().saturating_sub(C52)) as  $target
+                        let scaled = (self as $temporary * max).min(max).max(0.0);
+                        double_to_uint!(scaled, $target)
                     }
                 }
             )+
@@ -167,9 +183,8 @@ macro_rules! convert_double_to_uint {
                 #[inline]
                 fn into_stimulus(self) -> $direct_target {
                     let max = $direct_target::max_intensity() as $double;
-                    let scaled = (self * max).min(max);
-                    let f = scaled + f64::from_bits(C52);
-                    (f.to_bits().saturating_sub(C52)) as $direct_target
+                    let scaled = (self * max).min(max).max(0.0);
+                    double_to_uint!(scaled, $direct_target)
                 }
             }
         )+
